@@ -31,7 +31,7 @@ SIG = {
     'ccm_flags': 'int[nat]', 'ccm_b0': 'bytes', 'ccm_hdr': 'bytes', 'ccm_hdr_len': 'int[nat]', 'ccm_ctr0': 'bytes',
     'ccm_s0': 'bytes', 'ccm_fmt': 'bytes', 'ccm_tag': 'bytes', 'ccm_crypt': 'bytes', 'zpad': 'bytes', 'up16': 'int[nat]',
     'pow256': 'int[nat]', 'cat': 'bytes', 'ccm_a_start': 'int[nat]', 'ccm_a_end': 'int[nat]', 'ccm_p_start': 'int[nat]',
-    's2v_dbl': 'bytes', 's2v_pad': 'bytes', 's2v_final': 'bytes', 's2v_step': 'bytes', 'siv_v': 'bytes', 'siv_ctr0': 'bytes', 'siv_crypt': 'bytes',
+    's2v_dbl': 'bytes', 's2v_pad': 'bytes', 's2v_final': 'bytes', 's2v_step': 'bytes', 's2v_derive': 'bytes', 'siv_v': 'bytes', 'siv_ctr0': 'bytes', 'siv_crypt': 'bytes',
     'kw_w': 'bytes', 'kw_w_inv': 'bytes', 'kwp_mli': 'int[nat]', 'kwp_ok': 'bool', 'kwp_aiv': 'bytes',
     'ocb_nonce': 'bytes', 'ocb_ktop_in': 'bytes', 'ocb_offset0': 'bytes', 'ocb_stretch': 'bytes',
 }
@@ -217,6 +217,13 @@ def s2v_final(d, last):
     if len(last) >= 16:
         return last[:len(last) - 16] + xor(last[len(last) - 16:], d)
     return xor(s2v_pad(last), s2v_dbl(d))
+
+
+def s2v_derive(key, d, last, fresh):
+    """2.4: V for the state (d, last) of a vector with at least one component; for the empty vector (fresh) V = AES-CMAC(K, <one>)"""
+    if fresh:
+        return cmac(key, bytes(15) + b'\x01')
+    return cmac(key, s2v_final(d, last))
 
 
 def siv_v(key, d, last, nonce, plain):
